@@ -856,6 +856,73 @@ func genMarathon(master uint64, idx int) *History {
 	return h
 }
 
+// genStorm: one compiled expression (or parser) suffers k identical failures in a row and
+// is then used normally: counters that leak a little per failure (depth guards, error
+// budgets, statistics) need many failures before they bite.
+func genStorm(master uint64, idx int) *History {
+	r := &gen.Rng{S: simrt.Mix(master^0x5707, uint64(idx))}
+	h := &History{Mode: "fresh", MapSalt: r.Next(), MapPolicy: r.Intn(3), Parsers: 1}
+	base := DocSpec{Kind: "json", Text: gen.Doc(r), CapSeed: r.Next() | 1}
+	bad := DocSpec{Kind: "json", Text: corruptDoc(r, base.Text), CapSeed: r.Next() | 1}
+	h.Docs = []DocSpec{base, bad}
+	// an expression that works on the base document and fails on the corrupted one
+	fails := func(e string, d DocSpec) bool {
+		jp, _ := safeCompile(e)
+		if jp == nil {
+			return false
+		}
+		o, _ := execSearchObj(jp, d.Build())
+		return o.Kind == "error" || o.Kind == "panic"
+	}
+	expr := ""
+	for try := 0; try < 60 && expr == ""; try++ {
+		var e string
+		switch r.Intn(4) {
+		case 0:
+			e = systematic[r.Intn(len(systematic))]
+		case 1:
+			e = gen.GuardFilters[r.Intn(len(gen.GuardFilters))]
+		case 2:
+			e = r.Pick([]string{"objs[*].abs(k)", "nums[*].abs(@)", "mixed[*].abs(k)", "sort_by(objs, &k)", "sort_by(mixed, &k)", "map(&abs(k), objs)", "objs[?abs(k) > `1`]", "sum(nums)", "strs[*].length(@)", "nested[*].length(@)", "max_by(objs, &k)", "objs[*].t[*].abs(@)", "nested[].abs(@)"})
+		default:
+			e = gen.Expr(r)
+		}
+		simrt.RefMode(opStepCap)
+		if fails(e, bad) && !fails(e, base) {
+			expr = e
+		}
+		simrt.RefMode(0)
+	}
+	k := []int{3, 9, 20, 40, 70, 130, 140, 260, 300, 520, 600, 1100}[r.Intn(12)]
+	if expr != "" {
+		h.Exprs = []string{expr}
+		h.Compiled = []int{0}
+		for i := 0; i < k; i++ {
+			h.Ops = append(h.Ops, HOp{Kind: "search", Obj: 0, Doc: 1, Fault: "failure-storm"})
+			if i%97 == 50 {
+				h.Ops = append(h.Ops, HOp{Kind: "search", Obj: 0, Doc: 0})
+			}
+		}
+		h.Ops = append(h.Ops, HOp{Kind: "search", Obj: 0, Doc: 0}, HOp{Kind: "oneshot", Expr: 0, Doc: 0}, HOp{Kind: "search", Obj: 0, Doc: 1})
+	}
+	// the same for the parser: k identical failing parses, then valid ones
+	src := gen.Expr(r)
+	broken, _ := corruptExpr(r, src)
+	if r.Chance(1, 2) {
+		broken = gen.BrokenExprs[r.Intn(len(gen.BrokenExprs))]
+	}
+	if r.Chance(1, 4) {
+		broken = gen.Deep(gen.DeepOpenShapes[r.Intn(3)], 2+r.Intn(12))
+	}
+	h.Exprs = append(h.Exprs, broken, src, gen.Deep(gen.DeepShapes[r.Intn(len(gen.DeepShapes))], 20+r.Intn(60)))
+	bi := len(h.Exprs) - 3
+	for i := 0; i < k; i++ {
+		h.Ops = append(h.Ops, HOp{Kind: "parse", Obj: 0, Expr: bi, Fault: "failure-storm"})
+	}
+	h.Ops = append(h.Ops, HOp{Kind: "parse", Obj: 0, Expr: bi + 1}, HOp{Kind: "parse", Obj: 0, Expr: bi + 2}, HOp{Kind: "parse", Obj: 0, Expr: bi})
+	return h
+}
+
 // ---------------------------------------------------------------- worker
 
 func histWorker(tier string, master uint64, from, to int, maxWall time.Duration, replayDir, stage string, perRun bool) *Stats {
@@ -881,6 +948,8 @@ func histWorker(tier string, master uint64, from, to int, maxWall time.Duration,
 			}
 		} else if stage == "marathon" {
 			h = genMarathon(master, idx)
+		} else if stage == "storm" {
+			h = genStorm(master, idx)
 		} else {
 			h = genHistory(master, idx)
 		}
